@@ -228,7 +228,9 @@ Spec == Init /\ [][Next]_vars
 \* C17: ordered fail-over; first success wins; exhaustion (or no endpoint) is an error; retry delays are bounded
 C17_Contact(l) ==
   /\ l.ep <= Len(eps)
-  /\ IF CutKind THEN \A m \in 1..Len(contacted) : contacted[m] < l.ep   \* a context that ends early: in order; endpoints may go undialled
+  /\ IF CutKind THEN l.rpc => \A m \in 1..Len(contacted) : contacted[m] < l.ep   \* a context that ends early: requests arrive in order;
+                                 \* endpoints may go undialled, and connection attempts without a request (made in the background
+                                 \* for a call that has already given up) are not ordered
                 ELSE l.ep = Len(contacted) + 1                          \* strictly in order: no skip, no repeat, no invention
   /\ \A m \in 1..Len(contacted) :                               \* nobody is contacted after an endpoint succeeded
         contacted[m] \notin Goods
